@@ -317,3 +317,24 @@ Proof.
   all: try solve [ bools; brk_eqs; toks; match goal with G : get_bus _ _ = Some _ |- _ => use_bus L I G end; ions; brk_eqs; goods ].
 
 Qed.
+
+Lemma og_OSync : forall n L s a0 s1 sends e,
+  InvO L s -> wf_op n s (OSync a0) = true -> obj_step repaired s (OSync a0) = (s1, sends, e) ->
+  InvO (op_ids s (OSync a0) ++ L) s1 /\ Forall (Good (op_ids s (OSync a0) ++ L)) (flat_map send_msgs sends).
+Proof.
+  intros n L s a0 s1 sends e I Hw H.
+  cbn [wf_op] in Hw; try discriminate Hw; split_ands.
+  unfold obj_step, ok, fail in H.
+  brk_hyp H; inversion H; subst; clear H.
+  all: cbn [flat_map send_msgs app].
+  all: cbn [op_ids].
+  all: change (v_dict_brackets repaired) with false in *.
+  all: (split; [ try solve [inv_tac I] | try solve [constructor] ]).
+  all: try solve [ use_target L I; use_nodes L I; unfold pargroup_creation_cmd, group_creation_cmd, py_int in *;
+                   brk_eqs; bools; goods ].
+  all: try solve [ bools; brk_eqs; toks; match goal with G : get_buf _ _ = Some _ |- _ => use_buf L I G end;
+                   repeat match goal with G : get_buf _ _ = Some _ |- _ => use_buf L I G end;
+                   ions; brk_eqs; goods ].
+  all: try solve [ bools; brk_eqs; toks; match goal with G : get_bus _ _ = Some _ |- _ => use_bus L I G end; ions; brk_eqs; goods ].
+
+Qed.
